@@ -120,7 +120,9 @@ impl Boudot2000RangeProof {
 
         let str = w_1.to_string() + &w_2.to_string();
         let hash = <H as Digest>::digest(str);
-        let challenge = Integer::from_digits(hash.as_slice(), Order::MsfBe);
+        // the blinding ranges above are sized for a challenge of t bits
+        let challenge =
+            Integer::from_digits(hash.as_slice(), Order::MsfBe) % Integer::from(2).pow(t);
 
         let d = omega + &challenge * x;
         let d_1 = mu_1 + &challenge * r_1;
@@ -170,7 +172,8 @@ impl Boudot2000RangeProof {
 
         let str = lhs.to_string() + &rhs.to_string();
         let hash = <H as Digest>::digest(str);
-        let output = Integer::from_digits(hash.as_slice(), Order::MsfBe);
+        let output =
+            Integer::from_digits(hash.as_slice(), Order::MsfBe) % Integer::from(2).pow(Self::t);
 
         challenge == &output
     }
@@ -354,6 +357,11 @@ impl Boudot2000RangeProof {
             + Integer::from(2).pow(l + t + rug::ops::DivRounding::div_floor(T, 2) + 1)
                 * Integer::from(Integer::from(b - a).sqrt_ref());
 
+        // The proofs of square are about x_a_1, x_b_1 <= sqrt(bb - aa) and about randomness scaled by 2^T: the blinding
+        // of their responses must be sized for those, not for the interval bound b and the unscaled s2.
+        let b_square = Integer::from((&bb - &aa).complete().sqrt_ref()) + Integer::from(1);
+        let s2_square = s2.max(s + T + 1);
+
         let x_a = &x - aa;
 
         let x_b = bb - &x;
@@ -414,9 +422,9 @@ impl Boudot2000RangeProof {
             % n;
 
         let proof_of_square_a =
-            Self::proof_of_square::<H>(&x_a_1, &r_a_1, g, h, &E_a_1, l, t, b, s, s1, s2, n);
+            Self::proof_of_square::<H>(&x_a_1, &r_a_1, g, h, &E_a_1, l, t, &b_square, s, s1, s2_square, n);
         let proof_of_square_b =
-            Self::proof_of_square::<H>(&x_b_1, &r_b_1, g, h, &E_b_1, l, t, b, s, s1, s2, n);
+            Self::proof_of_square::<H>(&x_b_1, &r_b_1, g, h, &E_b_1, l, t, &b_square, s, s1, s2_square, n);
         let proof_large_i_a =
             Self::proof_large_interval_specific::<H>(&x_a_2, &r_a_2, g, h, t, l, b, s, n, T);
         let proof_large_i_b =
